@@ -83,7 +83,7 @@ pub fn check_error_shape(e: &JmespathError, expr: &str, doc: &Value, sub: &str, 
 
 pub const SIGMA_EXT: &[char] = &[
     'a', '1', '0', '-', '.', '*', '[', ']', '?', '|', '&', '!', '=', '<', '>', '@', '(', ')', '{', '}', ',', ':', '"', '\'',
-    '`', '\\', ' ', 'é', '\n', '😀', '٣',
+    '`', '\\', ' ', 'é', '\n', '😀', '٣', '\u{301}', '\u{200d}', '\u{fe0f}',
 ];
 
 fn check_compile_error(s: &str, st: &mut Stats) {
@@ -219,6 +219,30 @@ pub fn run(tier: Tier) -> i32 {
             st.states += 1;
             check_compile_error(&format!("{}{}", p, t), &mut st);
         }
+    }
+    // errors far to the right on one line and on late lines (rendering limits live here)
+    {
+        let cols: Vec<usize> = tier.pick(vec![1000, 4095, 4096, 4097, 65533, 65534, 65535, 65536, 65537, 70000], vec![1000, 4095, 4096, 4097, 32767, 32768, 65533, 65534, 65535, 65536, 65537, 70000, 131071, 131072, 131073, 300000]);
+        let sl = par_sweep(cols, |&c, st| {
+            for unit in ["a", "é", "e\u{301}"] {
+                let fill = unit.repeat(c / unit.chars().count());
+                for (src, is_rt) in [
+                    (format!("'{}' ~", fill), false),
+                    (format!("abs('{}')", fill), true),
+                    (format!("'{}' && nosuch(@)", fill), true),
+                    (format!("a\n|| '{}' && length(`1`)", fill), true),
+                    (format!("[{}]\n.~", "a,".repeat(c / 2) + "a"), false),
+                ] {
+                    st.states += 1;
+                    if is_rt {
+                        check_runtime_error(&src, &json!({"a": 1}), "long-lines", st);
+                    } else {
+                        check_compile_error(&src, st);
+                    }
+                }
+            }
+        });
+        st = st.merge(sl);
     }
     // (b) failing cells of the signature table, embedded
     let sigs = signatures();
